@@ -1,6 +1,7 @@
 package main
 
 import (
+	"fmt"
 	"math/rand"
 	"os"
 	"path/filepath"
@@ -273,6 +274,34 @@ func genC15Case(r *rand.Rand, kind string) c15Case {
 		gs2 := g.sheet("ZoneConf", 1+r.Intn(3), 1+r.Intn(3))
 		v2.Sheets = append(v2.Sheets, gs2.spec)
 	}
+	if r.Intn(3) == 0 {
+		if kind == "data" && len(v2.Sheets[0].Rows) > 3 {
+			// one more data edit: the first data line is rewritten
+			var row []string
+			for _, n := range gs.nodes {
+				row = append(row, g.cells(n, 77)...)
+			}
+			v2.Sheets[0].Rows[3] = row
+		}
+		// a header layout of its own with a row of blank cells inside the header region (notes not written yet):
+		// name row 1, note row 2 (blank), type row 3, data from row 4 — rows are addressed by their position in the file
+		relayout := func(b *bookSpec) {
+			for i := range b.Sheets {
+				rows := b.Sheets[i].Rows
+				out := [][]string{rows[0], make([]string, len(rows[0])), rows[1]}
+				out = append(out, rows[3:]...)
+				b.Sheets[i].Rows = out
+				meta := map[string]string{}
+				for k, v := range b.Sheets[i].Meta {
+					meta[k] = v
+				}
+				meta["Namerow"], meta["Noterow"], meta["Typerow"], meta["Datarow"] = "1", "2", "3", "4"
+				b.Sheets[i].Meta = meta
+			}
+		}
+		relayout(&v1)
+		relayout(&v2)
+	}
 	return c15Case{v1: v1, v2: v2, kind: kind}
 }
 
@@ -298,6 +327,9 @@ func runC15(c c15Case, container string) string {
 	e1, e2 := w1.genProto(ro), w2.genProto(ro)
 	if e1 != nil || e2 != nil {
 		if (e1 != nil) != (e2 != nil) && c.kind == "data" {
+			if os.Getenv("VERIF_DEBUG") != "" {
+				println("PARITY e1=", fmt.Sprint(e1), "\ne2=", fmt.Sprint(e2), "\nV1", debugBook(c.v1), "\nV2", debugBook(c.v2))
+			}
 			return "differ protogen-error-parity"
 		}
 		return "same protoerr"
@@ -401,7 +433,11 @@ func init() {
 		if a[0] == "columns" {
 			// D16 (known finding): the last named column opens a first-element scalar list/map
 			rows := c.v1.Sheets[0].Rows
-			if lastIsFirstElem(rows[0], rows[1]) {
+			types := rows[1]
+			if c.v1.Sheets[0].Meta["Typerow"] == "3" {
+				types = rows[2]
+			}
+			if lastIsFirstElem(rows[0], types) {
 				return "same skipped-d16"
 			}
 		}
@@ -409,6 +445,13 @@ func init() {
 	})
 	// the fixed witness of D16
 	regImpl("c15.known", func(a []string) string {
+		if len(a) > 0 && a[0] == "onecol-blank-note-row" {
+			// D46 (fixed): a one-column CSV sheet with a blank note row above the type row; v2 = v1 minus its data rows
+			meta := map[string]string{"Namerow": "1", "Noterow": "2", "Typerow": "3", "Datarow": "4"}
+			v1 := bookSpec{Name: "Fuzz", Sheets: []sheetSpec{{Name: "HeroConf", Meta: meta, Rows: [][]string{{"Ratio"}, {""}, {"double"}, {"0.5"}}}}}
+			v2 := bookSpec{Name: "Fuzz", Sheets: []sheetSpec{{Name: "HeroConf", Meta: meta, Rows: [][]string{{"Ratio"}, {""}, {"double"}}}}}
+			return runC15(c15Case{v1: v1, v2: v2, kind: "data"}, "csv")
+		}
 		v1 := bookSpec{Name: "Fuzz", Sheets: []sheetSpec{{Name: "HeroConf", Rows: [][]string{{"ID", "Param1"}, {"map<uint32, Hero>", "[]int32"}, {"", ""}, {"1", "5"}}}}}
 		v2 := bookSpec{Name: "Fuzz", Sheets: []sheetSpec{{Name: "HeroConf", Rows: [][]string{{"ID", "Param1", "Extra"}, {"map<uint32, Hero>", "[]int32", "string"}, {"", "", ""}, {"1", "5", "x"}}}}}
 		return runC15(c15Case{v1: v1, v2: v2, kind: "columns"}, "csv")
